@@ -34,6 +34,9 @@ def _pos_then_neg(pairs):
     return [(k, v) for k, v in pairs if v > 0] + [(k, v) for k, v in pairs if v < 0]
 
 
+_RENAMED = None
+
+
 class Checker:
     def __init__(self, ctx, db):
         self.ctx = ctx
@@ -72,6 +75,17 @@ class Checker:
         for c, (u, e) in cmap.items():
             by_symbol[u] = by_symbol.get(u, 0) + e
         names = [(db.GetUnitName(db.unit_to_unit_info[u].quantity_type, u), e) for u, e in by_symbol.items()]
+        # the strings are the quantity's own: asked while a project database (other unit names, fewer categories) is the
+        # current one they read the same
+        global _RENAMED
+        if _RENAMED is None:
+            _RENAMED = env.renamed_db()
+        own = (q.GetUnit(), q.GetCategory(), q.GetQuantityType(), q.GetUnitName())
+        with env.pushed(_RENAMED):
+            there = (q.GetUnit(), q.GetCategory(), q.GetQuantityType(), q.GetUnitName())
+        ctx.ev()
+        if there != own:
+            ctx.fail("strings_depend_on_the_current_database", case, "(unit, category, quantity type, unit name) = %r while its own database is current, %r while a project database is" % (own, there))
         for what, text, want in (
             ("category", q.GetCategory(), _pos_then_neg([(c, ue[1]) for c, ue in cmap.items()])),
             ("quantity_type", q.GetQuantityType(), _pos_then_neg(list(qts.items()))),
